@@ -157,6 +157,9 @@ func rotationProjects(c *core.Ctx, n int) []*gen.Project {
 			row.TS10 = 50 + r.Intn(80)
 			row.IrrSt1, row.IrrSt2 = 2+r.Intn(2), 4+r.Intn(3)
 			row.IrrMax = []int{10, 25, 50}[r.Intn(3)]
+			if p.Cfg.AutoIrr == 1 && len(p.Rotation) > 1 && e.Crop == p.Rotation[1].Crop && (o.Drought || i%3 == 0) {
+				row.IrrMax = 0 // an open stage window with a daily maximum of 0 mm: no water, not "no limit"
+			}
 			row.IrrLow = 40 + r.Intn(40)
 			row.Ndem1, row.Ndem2 = 40+r.Intn(100), r.Intn(120)
 			// second / third dressing scheduled by development stage or by day of year; small demands so that the soil
@@ -193,9 +196,30 @@ func rotationProjects(c *core.Ctx, n int) []*gen.Project {
 			p.Rotation[k].Sow = gen.DayNum(y, 4, 1+r.Intn(25))
 			p.Rotation[k].Harv = gen.DayNum(y, 9, 1+r.Intn(28))
 		}
+		// arm "earlyLatest": the latest harvest date of the first crop follows its (fixed) sowing date within a week: the crop
+		// has not emerged when its latest harvest date comes, and must be taken off the field all the same
+		earlyLatest := i%8 == 2 && len(p.Rotation) > 1
+		if earlyLatest {
+			p.Cfg.AutoHarv = 1
+			cr := p.Rotation[1].Crop
+			for k := range rows {
+				if rows[k].Crop == cr {
+					rows[k].Sow1M, rows[k].Sow1D, rows[k].Sow2M, rows[k].Sow2D = 0, 0, 0, 0
+					rows[k].Har2M, rows[k].Har2D = 4, 14
+				}
+			}
+			p.Automan = rows
+			for k := 1; k < len(p.Rotation); k++ {
+				if p.Rotation[k].Crop == cr {
+					y, _, _ := gen.YMD(p.Rotation[k].Sow)
+					p.Rotation[k].Sow = gen.DayNum(y, 4, 7+r.Intn(3)) // cold early April: no emergence within five days
+					p.Rotation[k].Harv = gen.DayNum(y, 4, 14)
+				}
+			}
+		}
 		// no fixed-date tillage between sowing and (latest) harvest
 		p.Till, p.Fert, p.Irr = nil, nil, nil
-		p.Arms = []string{fmt.Sprintf("autoSow=%d autoHarv=%d autoIrr=%d autoFert=%d crops=%d autorg=%d/%s", p.Cfg.AutoSow, p.Cfg.AutoHarv, p.Cfg.AutoIrr, p.Cfg.AutoFert, len(p.Rotation)-1, p.Rotation[0].AutOrg, rows[0].OrgTime)}
+		p.Arms = []string{fmt.Sprintf("autoSow=%d autoHarv=%d autoIrr=%d autoFert=%d crops=%d autorg=%d/%s irrmax0=%v earlyLatest=%v", p.Cfg.AutoSow, p.Cfg.AutoHarv, p.Cfg.AutoIrr, p.Cfg.AutoFert, len(p.Rotation)-1, p.Rotation[0].AutOrg, rows[0].OrgTime, p.Cfg.AutoIrr == 1 && (o.Drought || i%3 == 0), earlyLatest)}
 		ps = append(ps, p)
 	}
 	return ps
